@@ -131,7 +131,7 @@ def run(ctx):
     log = monitors.ContractLog()
     undo = monitors.attach_from_kd_buf_contract(log)
     try:
-        n_hist = ctx.pick(120, 1500)
+        n_hist = ctx.pick(150, 8000)
         for h in range(n_hist):
             k = rng.choice((1, 1, 2, 3, 4))
             files = []
@@ -165,6 +165,14 @@ def run(ctx):
                      'data': wire.v2_file(entries, pad, recs)}
                 one_history(res, rng, [f], 'top')
                 res.count('zero_leading_first_record_files')
+        # large dumps: record counts beyond 8- and 16-bit limits, thread maps of hundreds of entries
+        for m in ctx.pick((300, 5000), (70000, 300, 66000)):
+            entries = [(rng.getrandbits(64), rng.getrandbits(32), rng.choice(gen.NAMES), b'') for _ in range(rng.choice((300, 1000)))]
+            recs = gen.gen_records(rng, m, first_nonzero=True)
+            f = {'kind': 'v2', 'entries': entries, 'pad': rng.choice((0, 4096)), 'records': recs}
+            f['data'] = wire.v2_file(entries, f['pad'], recs)
+            one_history(res, rng, [f], rng.choice(('top', 'dicts')))
+            res.count('large_files')
         # ambiguous files: all-zero first record(s)
         for z in (1, 2):
             recs = [bytes(64)] * z + [gen.nonzero_lead(gen.gen_record(rng, 'random'))]
